@@ -7,13 +7,15 @@
    (0 i model-line impl-line) for the first differing line i (or the two
    results' shapes).  C12/Lemmas.v proves [run c = SL [SZ 1] <-> render = expected]. *)
 From Coq Require Import ZArith List Bool.
-From AK Require Export Common.Sx Common.Err C12.Model.
+From AK Require Export Common.Sx Common.Err C12.Model C12.Hist.
 Import ListNotations.
 
 Inductive case :=
 | mkCase (t : table) (expect : res (list str))                      (* a printed table *)
 | FitCase (chunks : list str) (w : nat) (al : align) (expect : str)   (* FieldType.fit_to_width: the text of the result *)
-| ResizeCase (chunks : list str) (n : nat) (expect : str).           (* CHText.resize_chunks_list: the text of the result *)
+| ResizeCase (chunks : list str) (n : nat) (expect : str)            (* CHText.resize_chunks_list: the text of the result *)
+| HistCase (ts : list table) (ops : list op) (expect : list (res (list str))).
+    (* a history (C12/Hist.v): the constructor calls of ts, then ops; one observed event per call *)
 
 Fixpoint str_eqb (a b : str) : bool :=
   match a, b with
@@ -39,16 +41,36 @@ Definition cmp_lists (a b : list str) : sx :=
   | Some (i, x, y) => SL [SZ 0; SZ i; sx_option sx_str x; sx_option sx_str y]
   end.
 
+Definition cmp_res (x y : res (list str)) : sx :=
+  match x, y with
+  | Ok a, Ok b => cmp_lists a b
+  | Err e, Err e' =>
+      if err_eqb e e' then verdict_ok else SL [SZ 0; SZ (-1); SZ (err_code e); SZ (err_code e')]
+  | Ok a, Err e' => SL [SZ 0; SZ (-2); sx_nat (length a); SZ (err_code e')]
+  | Err e, Ok b => SL [SZ 0; SZ (-3); SZ (err_code e); sx_nat (length b)]
+  end.
+
+Definition res_eqb (x y : res (list str)) : bool :=
+  match x, y with
+  | Ok a, Ok b => match first_diff a b 0 with None => true | Some _ => false end
+  | Err e, Err e' => err_eqb e e'
+  | _, _ => false
+  end.
+
+(* first event (number i) where model and implementation differ: (0 -4 i <difference>) *)
+Fixpoint cmp_events (a b : list (res (list str))) (i : Z) : sx :=
+  match a, b with
+  | [], [] => verdict_ok
+  | x :: ar, y :: br =>
+      if res_eqb x y then cmp_events ar br (i + 1)%Z else SL [SZ 0; SZ (-4); SZ i; cmp_res x y]
+  | _ :: _, [] => SL [SZ 0; SZ (-5); SZ i]
+  | [], _ :: _ => SL [SZ 0; SZ (-6); SZ i]
+  end.
+
 Definition run (c : case) : sx :=
   match c with
-  | mkCase t expect =>
-      match render t, expect with
-      | Ok a, Ok b => cmp_lists a b
-      | Err e, Err e' =>
-          if err_eqb e e' then verdict_ok else SL [SZ 0; SZ (-1); SZ (err_code e); SZ (err_code e')]
-      | Ok a, Err e' => SL [SZ 0; SZ (-2); sx_nat (length a); SZ (err_code e')]
-      | Err e, Ok b => SL [SZ 0; SZ (-3); SZ (err_code e); sx_nat (length b)]
-      end
+  | mkCase t expect => cmp_res (render t) expect
   | FitCase chunks w al expect => cmp_lists [fit_text chunks w al] [expect]
   | ResizeCase chunks n expect => cmp_lists [concat (resize_chunks_list chunks n)] [expect]
+  | HistCase ts ops expect => cmp_events (hist_events ts ops) expect 0
   end.
